@@ -1,3 +1,5 @@
+//go:build verif && !no_c13
+
 package main
 
 import (
